@@ -207,3 +207,402 @@ theorem C10_chain_mutates_input_pinned :
       | .ok (h', _) => h'[0]?
       | .error _ => none) = some ⟨[65], [117], [], [], none⟩ := by
   decide
+
+
+
+/-! ### the aliasing-level operations compute what the value-level operations compute -/
+
+theorem mapM_getElem?_append {h : Heap} {refs : List Nat} {recs : List Record} (hv : refs.mapM (fun r => h[r]?) = some recs)
+    (extra : List Record) : refs.mapM (fun r => (h ++ extra)[r]?) = some recs := by
+  induction refs generalizing recs with
+  | nil => simpa using hv
+  | cons r rs ih =>
+    rw [List.mapM_cons] at hv ⊢
+    cases hr : h[r]? with
+    | none => simp [hr] at hv
+    | some x =>
+      have hlt : r < h.length := by
+        rcases Nat.lt_or_ge r h.length with h' | h'
+        · exact h'
+        · rw [List.getElem?_eq_none_iff.mpr h'] at hr; cases hr
+      rw [List.getElem?_append_left hlt, hr]
+      simp only [hr, Option.bind_eq_bind, Option.bind_some] at hv ⊢
+      cases hm : rs.mapM (fun r => h[r]?) with
+      | none => simp [hm] at hv
+      | some xs =>
+        rw [hm] at hv
+        rw [ih hm]
+        exact hv
+
+theorem view_records {h : Heap} {c : HConv} {cv : Conv} (hv : c.view h = some cv) :
+    c.refs.mapM (fun r => h[r]?) = some cv.records ∧ cv.delim = c.delim ∧ cv.prefixMap = c.prefixMap ∧
+      cv.synToPrefix = c.synToPrefix ∧ cv.revMap = c.revMap ∧ cv.trie = c.trie ∧ cv.patMap = c.patMap := by
+  unfold HConv.view at hv
+  cases hm : c.refs.mapM (fun r => h[r]?) with
+  | none => simp [hm] at hv
+  | some recs =>
+    rw [hm] at hv
+    simp only [Option.map_some, Option.some.injEq] at hv
+    subst hv
+    exact ⟨rfl, rfl, rfl, rfl, rfl, rfl, rfl⟩
+
+theorem mapM_snoc {α β : Type} (f : α → Option β) (l : List α) (a : α) (xs : List β) (x : β)
+    (hl : l.mapM f = some xs) (ha : f a = some x) : (l ++ [a]).mapM f = some (xs ++ [x]) := by
+  induction l generalizing xs with
+  | nil =>
+    simp only [List.mapM_nil, Option.pure_def, Option.some.injEq] at hl
+    subst hl
+    simp [List.mapM_cons, ha]
+  | cons b bs ih =>
+    rw [List.cons_append, List.mapM_cons]
+    rw [List.mapM_cons] at hl
+    cases hb : f b with
+    | none => simp [hb] at hl
+    | some y =>
+      simp only [hb, Option.bind_eq_bind, Option.bind_some] at hl ⊢
+      cases hm : bs.mapM f with
+      | none => simp [hm] at hl
+      | some ys =>
+        rw [hm] at hl
+        simp only [Option.bind_some, Option.pure_def, Option.some.injEq] at hl
+        subst hl
+        rw [ih ys hm]
+        rfl
+
+theorem mapM_congr_mem {α β : Type} (f g : α → Option β) (l : List α) (h : ∀ a ∈ l, f a = g a) :
+    l.mapM f = l.mapM g := by
+  induction l with
+  | nil => rfl
+  | cons a as ih =>
+    rw [List.mapM_cons, List.mapM_cons, h a (by simp), ih (fun x hx => h x (by simp [hx]))]
+
+theorem mapM_set_heap (h : Heap) (refs : List Nat) (recs : List Record) (j ref : Nat) (m : Record)
+    (hv : refs.mapM (fun r => h[r]?) = some recs) (hnd : refs.Nodup) (hj : refs[j]? = some ref) :
+    refs.mapM (fun r => (h.set ref m)[r]?) = some (recs.set j m) := by
+  induction refs generalizing recs j with
+  | nil => simp at hj
+  | cons r rs ih =>
+    rw [List.mapM_cons] at hv ⊢
+    have hnd' := List.nodup_cons.mp hnd
+    cases hr : h[r]? with
+    | none => simp [hr] at hv
+    | some x =>
+      simp only [hr, Option.bind_eq_bind, Option.bind_some] at hv
+      cases hm : rs.mapM (fun r => h[r]?) with
+      | none => simp [hm] at hv
+      | some xs =>
+        rw [hm] at hv
+        simp only [Option.bind_some, Option.pure_def, Option.some.injEq] at hv
+        subst hv
+        have hlt : r < h.length := by
+          rcases Nat.lt_or_ge r h.length with h' | h'
+          · exact h'
+          · rw [List.getElem?_eq_none_iff.mpr h'] at hr; cases hr
+        cases j with
+        | zero =>
+          simp only [List.getElem?_cons_zero, Option.some.injEq] at hj
+          subst hj
+          -- the head is the updated object; the tail does not mention it
+          have htail : rs.mapM (fun q => (h.set r m)[q]?) = some xs := by
+            rw [← hm]
+            apply mapM_congr_mem
+            intro q hq
+            rw [List.getElem?_set]
+            have : ¬ r = q := fun e => hnd'.1 (e ▸ hq)
+            simp [this]
+          have hhead : (h.set r m)[r]? = some m := by rw [List.getElem?_set]; simp [hlt]
+          rw [hhead, htail]
+          rfl
+        | succ j' =>
+          simp only [List.getElem?_cons_succ] at hj
+          have hne : ref ≠ r := by
+            intro e; subst e
+            exact hnd'.1 (List.mem_of_getElem? hj)
+          have := ih xs j' hm hnd'.2 hj
+          have hhead : (h.set ref m)[r]? = some x := by rw [List.getElem?_set]; simp [hne, hr]
+          rw [hhead, this]
+          rfl
+
+/-- **`add_record` at the aliasing level is `add_record` at the value level.** If the converter's
+references are pairwise different objects and the new record is none of them, a successful
+aliasing-level call corresponds to a successful value-level call on the converter's view, and the
+new view is the value-level result. -/
+theorem addRecordH_sim (fold : Str → Str) (h h' : Heap) (c c' : HConv) (rnew : Nat) (cs merge : Bool) (cv : Conv)
+    (r : Record) (hv : c.view h = some cv) (hr : h[rnew]? = some r) (hnd : c.refs.Nodup) (hnew : rnew ∉ c.refs)
+    (hok : addRecordH fold h c rnew cs merge = .ok (h', c')) :
+    ∃ cv', cv.addRecord fold r cs merge = .ok cv' ∧ c'.view h' = some cv' ∧ c'.refs.Nodup := by
+  obtain ⟨hrecs, e1, e2, e3, e4, e5, e6⟩ := view_records hv
+  unfold addRecordH at hok
+  rw [hv, hr] at hok
+  simp only at hok
+  unfold Conv.addRecord
+  cases hk : cv.matchedKeys fold r cs with
+  | nil =>
+    rw [hk] at hok
+    simp only [Except.ok.injEq, Prod.mk.injEq] at hok
+    obtain ⟨rfl, rfl⟩ := hok
+    refine ⟨_, rfl, ?_, ?_⟩
+    · unfold HConv.view HConv.ofConv
+      simp only
+      rw [mapM_snoc _ c.refs rnew cv.records r hrecs hr]
+      rfl
+    · exact List.nodup_append.mpr ⟨hnd, by simp, by
+        intro a ha b hb
+        simp at hb; subst hb
+        intro e; subst e; exact hnew ha⟩
+  | cons key rest =>
+    cases rest with
+    | cons k2 r2 => rw [hk] at hok; cases hok
+    | nil =>
+      rw [hk] at hok
+      simp only at hok
+      by_cases hm : merge = true
+      · subst hm
+        simp only [Bool.not_true, Bool.false_eq_true, if_false] at hok ⊢
+        cases hf : cv.records.findIdx? (fun x => x.key == key) with
+        | none => rw [hf] at hok; cases hok
+        | some j =>
+          rw [hf] at hok
+          simp only at hok ⊢
+          cases hrj : c.refs[j]? with
+          | none => rw [hrj] at hok; cases hok
+          | some ref =>
+            cases hej : cv.records[j]? with
+            | none => rw [hrj, hej] at hok; cases hok
+            | some existing =>
+              rw [hrj, hej] at hok
+              simp only [Except.ok.injEq, Prod.mk.injEq] at hok
+              obtain ⟨rfl, rfl⟩ := hok
+              refine ⟨_, rfl, ?_, hnd⟩
+              unfold HConv.view HConv.ofConv
+              simp only
+              rw [mapM_set_heap h c.refs cv.records j ref _ hrecs hnd hrj]
+              rfl
+      · have hm' : merge = false := by simpa using hm
+        subst hm'
+        simp at hok
+
+theorem view_refs_lt {h : Heap} {c : HConv} {cv : Conv} (hv : c.view h = some cv) : ∀ r ∈ c.refs, r < h.length := by
+  have hm := (view_records hv).1
+  intro r hr
+  have key : ∀ (l : List Nat) (xs : List Record), l.mapM (fun q => h[q]?) = some xs → ∀ q ∈ l, q < h.length := by
+    intro l
+    induction l with
+    | nil => intro xs _ q hq; cases hq
+    | cons a as ih =>
+      intro xs hx q hq
+      rw [List.mapM_cons] at hx
+      cases ha : h[a]? with
+      | none => simp [ha] at hx
+      | some y =>
+        simp only [ha, Option.bind_eq_bind, Option.bind_some] at hx
+        cases hm' : as.mapM (fun q => h[q]?) with
+        | none => simp [hm'] at hx
+        | some ys =>
+          rcases List.mem_cons.mp hq with rfl | hq'
+          · rcases Nat.lt_or_ge q h.length with h' | h'
+            · exact h'
+            · rw [List.getElem?_eq_none_iff.mpr h'] at ha; cases ha
+          · exact ih ys hm' q hq'
+  exact key _ _ hm r hr
+
+theorem view_append {h : Heap} {c : HConv} {cv : Conv} (hv : c.view h = some cv) (extra : List Record) :
+    c.view (h ++ extra) = some cv := by
+  have hm := (view_records hv).1
+  unfold HConv.view at hv ⊢
+  rw [mapM_getElem?_append hm extra]
+  rw [hm] at hv
+  exact hv
+
+/-- the fold of `chain`, aliasing level against value level: `rs` are the records behind `refs` in
+the heap `h0` the inputs live in; the accumulator owns only objects allocated after `h0` -/
+theorem chainFoldH_sim (fold : Str → Str) (cs : Bool) (h0 : Heap) :
+    ∀ (refs : List Nat) (rs : List Record) (acc : Heap × HConv) (accv : Conv) (h' : Heap) (c' : HConv),
+      refs.mapM (fun q => h0[q]?) = some rs →
+      acc.2.view acc.1 = some accv → acc.2.refs.Nodup → (∀ r ∈ acc.2.refs, h0.length ≤ r) →
+      (∀ i, i < h0.length → acc.1[i]? = h0[i]?) → h0.length ≤ acc.1.length →
+      refs.foldlM (fun (acc : Heap × HConv) ref =>
+        match allocCopy acc.1 ref with
+        | none => (.error .other : Except Err (Heap × HConv))
+        | some (h', cp) => addRecordH fold h' acc.2 cp cs true) acc = .ok (h', c') →
+      ∃ cv', rs.foldlM (fun a r => a.addRecord fold r cs true) accv = .ok cv' ∧ c'.view h' = some cv' := by
+  intro refs
+  induction refs with
+  | nil =>
+    intro rs acc accv h' c' hrs hv _ _ _ _ hres
+    simp only [List.mapM_nil, Option.pure_def, Option.some.injEq] at hrs
+    subst hrs
+    simp [List.foldlM, pure, Except.pure] at hres
+    obtain ⟨rfl, rfl⟩ : acc = (h', c') := hres
+    exact ⟨accv, rfl, hv⟩
+  | cons ref rest ih =>
+    intro rs acc accv h' c' hrs hv hnd hown hfr hlen hres
+    rw [List.mapM_cons] at hrs
+    cases hr0 : h0[ref]? with
+    | none => simp [hr0] at hrs
+    | some x =>
+      simp only [hr0, Option.bind_eq_bind, Option.bind_some] at hrs
+      cases hm : rest.mapM (fun q => h0[q]?) with
+      | none => simp [hm] at hrs
+      | some xs =>
+        rw [hm] at hrs
+        simp only [Option.bind_some, Option.pure_def, Option.some.injEq] at hrs
+        subst hrs
+        have hreflt : ref < h0.length := by
+          rcases Nat.lt_or_ge ref h0.length with h'' | h''
+          · exact h''
+          · rw [List.getElem?_eq_none_iff.mpr h''] at hr0; cases hr0
+        have hracc : acc.1[ref]? = some x := by rw [hfr ref hreflt]; exact hr0
+        rw [List.foldlM_cons] at hres
+        have ha : allocCopy acc.1 ref = some (acc.1 ++ [x], acc.1.length) := by
+          unfold allocCopy; rw [hracc]; rfl
+        rw [ha] at hres
+        simp only [bind, Except.bind] at hres
+        cases hstep : addRecordH fold (acc.1 ++ [x]) acc.2 acc.1.length cs true with
+        | error e => simp [hstep] at hres
+        | ok res =>
+          obtain ⟨h2, c2⟩ := res
+          simp only [hstep] at hres
+          have hnew : acc.1.length ∉ acc.2.refs := fun hm' => Nat.lt_irrefl _ (view_refs_lt hv _ hm')
+          obtain ⟨cv1, hpure, hv1, hnd1⟩ := addRecordH_sim fold (acc.1 ++ [x]) h2 acc.2 c2 acc.1.length cs true accv x
+            (view_append hv [x]) (by simp) hnd hnew hstep
+          have ⟨f2, own2, len2⟩ := C10_frame_followup fold _ _ _ _ _ h0.length cs true hown hlen hstep
+          obtain ⟨cv', hfold, hview⟩ := ih xs (h2, c2) cv1 h' c' hm hv1 hnd1 own2
+            (by
+              intro i hi
+              rw [f2 i hi, List.getElem?_append_left (Nat.lt_of_lt_of_le hi hlen)]
+              exact hfr i hi)
+            (by simp only; rw [len2]; simp; omega) hres
+          refine ⟨cv', ?_, hview⟩
+          rw [List.foldlM_cons, hpure]
+          exact hfold
+
+/-- **`chain` at the aliasing level computes `chain` at the value level.** If the aliasing-level
+`chain` (records copied on entry, as after the repair F3) succeeds on converters whose views in the
+heap are `cvs`, then the value-level `chain` of C09 succeeds on `cvs` and the returned converter's
+view is its result — so everything C09 proves about `chain` holds of the object C10 talks about. -/
+theorem C10_chain_refines (fold : Str → Str) (h h' : Heap) (convs : List HConv) (cs : Bool) (c' : HConv)
+    (cvs : List Conv) (hviews : convs.mapM (fun c => c.view h) = some cvs)
+    (hok : chainH fold h convs cs = .ok (h', c')) :
+    ∃ cv', Conv.chain fold cvs cs = .ok cv' ∧ c'.view h' = some cv' := by
+  unfold chainH at hok
+  split at hok
+  · cases hok
+  · rename_i hne
+    -- the records behind all references, in order
+    have hall : ∀ (l : List HConv) (vs : List Conv), l.mapM (fun c => c.view h) = some vs →
+        (l.flatMap (·.refs)).mapM (fun q => h[q]?) = some (vs.flatMap (·.records)) ∧ (l.isEmpty = vs.isEmpty) := by
+      intro l
+      induction l with
+      | nil => intro vs hvs; simp only [List.mapM_nil, Option.pure_def, Option.some.injEq] at hvs; subst hvs; exact ⟨rfl, rfl⟩
+      | cons a as ih =>
+        intro vs hvs
+        rw [List.mapM_cons] at hvs
+        cases hav : a.view h with
+        | none => simp [hav] at hvs
+        | some av =>
+          simp only [hav, Option.bind_eq_bind, Option.bind_some] at hvs
+          cases hm : as.mapM (fun c => c.view h) with
+          | none => simp [hm] at hvs
+          | some avs =>
+            rw [hm] at hvs
+            simp only [Option.bind_some, Option.pure_def, Option.some.injEq] at hvs
+            subst hvs
+            have h1 := (view_records hav).1
+            have h2 := (ih avs hm).1
+            refine ⟨?_, rfl⟩
+            rw [List.flatMap_cons, List.flatMap_cons]
+            -- mapM over an append
+            have app : ∀ (l1 l2 : List Nat) (x1 x2 : List Record), l1.mapM (fun q => h[q]?) = some x1 →
+                l2.mapM (fun q => h[q]?) = some x2 → (l1 ++ l2).mapM (fun q => h[q]?) = some (x1 ++ x2) := by
+              intro l1
+              induction l1 with
+              | nil => intro l2 x1 x2 e1 e2; simp only [List.mapM_nil, Option.pure_def, Option.some.injEq] at e1; subst e1; simpa using e2
+              | cons b bs ihb =>
+                intro l2 x1 x2 e1 e2
+                rw [List.cons_append, List.mapM_cons]
+                rw [List.mapM_cons] at e1
+                cases hb : h[b]? with
+                | none => simp [hb] at e1
+                | some y =>
+                  simp only [hb, Option.bind_eq_bind, Option.bind_some] at e1 ⊢
+                  cases hbs : bs.mapM (fun q => h[q]?) with
+                  | none => simp [hbs] at e1
+                  | some ys =>
+                    rw [hbs] at e1
+                    simp only [Option.bind_some, Option.pure_def, Option.some.injEq] at e1
+                    subst e1
+                    rw [ihb l2 ys x2 hbs e2]
+                    rfl
+            exact app _ _ _ _ h1 h2
+    obtain ⟨hrecs, hemp⟩ := hall convs cvs hviews
+    have hne' : cvs.isEmpty = false := by rw [← hemp]; simpa using hne
+    obtain ⟨cv', hfold, hview⟩ := chainFoldH_sim fold cs h (convs.flatMap (·.refs)) _ (h, HConv.ofConv Conv.empty [])
+      Conv.empty h' c' hrecs (by simp [HConv.view, HConv.ofConv, Conv.empty, Conv.build]) (by simp [HConv.ofConv])
+      (by simp [HConv.ofConv]) (fun _ _ => rfl) (Nat.le_refl _) hok
+    refine ⟨cv', ?_, hview⟩
+    unfold Conv.chain
+    rw [hne']
+    simp only [Bool.false_eq_true, if_false]
+    exact hfold
+
+theorem mapM_range_append (h : Heap) (l : List Record) :
+    ((List.range l.length).map (· + h.length)).mapM (fun q => (h ++ l)[q]?) = some l := by
+  have key : ∀ (l1 l2 : List Record),
+      ((List.range l2.length).map (· + (h ++ l1).length)).mapM (fun q => ((h ++ l1) ++ l2)[q]?) = some l2 := by
+    intro l1 l2
+    induction l2 generalizing l1 with
+    | nil => rfl
+    | cons x xs ih =>
+      rw [List.length_cons, List.range_succ_eq_map, List.map_cons, List.mapM_cons]
+      have h0 : ((h ++ l1) ++ x :: xs)[0 + (h ++ l1).length]? = some x := by
+        rw [Nat.zero_add, List.getElem?_append_right (Nat.le_refl _)]; simp
+      rw [h0]
+      simp only [Option.bind_eq_bind, Option.bind_some, List.map_map]
+      have := ih (l1 ++ [x])
+      have e1 : (h ++ (l1 ++ [x])) ++ xs = (h ++ l1) ++ x :: xs := by simp
+      have e2 : (h ++ (l1 ++ [x])).length = (h ++ l1).length + 1 := by simp; omega
+      rw [e1, e2] at this
+      have e3 : (List.map ((fun x => x + (h ++ l1).length) ∘ Nat.succ) (List.range xs.length)) =
+          List.map (fun x => x + ((h ++ l1).length + 1)) (List.range xs.length) := by
+        apply List.map_congr_left
+        intro a _
+        simp only [Function.comp, Nat.succ_eq_add_one]; omega
+      rw [e3, this]
+      rfl
+  have := key [] l
+  simpa using this
+
+/-- **The copy-on-entry derivations compute their value-level function.** -/
+theorem C10_copy_refines (h h' : Heap) (c c' : HConv) (f : Conv → Except Err Conv)
+    (hok : deriveByCopyH h c f = .ok (h', c')) :
+    ∃ cv cv', c.view h = some cv ∧ f cv = .ok cv' ∧ c'.view h' = some cv' := by
+  unfold deriveByCopyH at hok
+  cases hv : c.view h with
+  | none => rw [hv] at hok; cases hok
+  | some cv =>
+    rw [hv] at hok
+    simp only at hok
+    cases hf : f cv with
+    | error e => rw [hf] at hok; cases hok
+    | ok cv' =>
+      rw [hf] at hok
+      simp only [Except.ok.injEq, Prod.mk.injEq] at hok
+      obtain ⟨rfl, rfl⟩ := hok
+      refine ⟨cv, cv', rfl, hf, ?_⟩
+      unfold HConv.view HConv.ofConv
+      simp only
+      rw [mapM_range_append]
+      rfl
+
+/-- Non-vacuity of the refinement: two inputs in one heap, chained at the aliasing level; the view of
+the result is the value-level chain, and the inputs' objects are where they were. -/
+example :
+    (let h : Heap := [⟨[65], [117], [], [], none⟩, ⟨[66], [117], [[98]], [], none⟩]
+     let c1 := HConv.ofConv (Conv.build [58] [⟨[65], [117], [], [], none⟩]) [0]
+     let c2 := HConv.ofConv (Conv.build [58] [⟨[66], [117], [[98]], [], none⟩]) [1]
+     match chainH id h [c1, c2] true with
+     | .ok (h', c') => ((c'.view h').map (·.records), h'.take 2 == h, c'.refs)
+     | .error _ => (none, false, []))
+    = (some [⟨[65], [117], [[66], [98]], [], none⟩], true, [2]) := by
+  decide
